@@ -9,7 +9,7 @@ import pathlib
 import typing
 from collections import OrderedDict
 from pathlib import PurePosixPath
-from types import ModuleType, FunctionType
+from types import ModuleType, FunctionType, BuiltinFunctionType
 from typing import (
     Any,
     Union,
@@ -323,6 +323,21 @@ class ObjectRetrieval(object):
             # If it is a module, continue recursion
             if isinstance(obj, ModuleType):
                 return cls._retrieve_object_rec(tail_path, obj, gctx)
+            # A C-implemented function bound to a name of this module (from math import floor as rnd): it is
+            # identified by its own module and name (math/floor), not by the local name, so that binding the
+            # name to another function changes the signature.
+            if isinstance(obj, BuiltinFunctionType):
+                bmod = inspect.getmodule(obj)
+                bname = getattr(obj, "__name__", None)
+                if (
+                    bmod is not None
+                    and bmod is not context_mod
+                    and bname is not None
+                    and bmod.__dict__.get(bname) is obj
+                ):
+                    return cls._retrieve_object_rec(
+                        LocalDepPath(PurePosixPath(bname)), bmod, gctx
+                    )
             # Special treatment for objects that may be defined in other modules but are redirected in this one.
             if isinstance(obj, (FunctionType, type)):
                 mod_obj = inspect.getmodule(obj)
